@@ -23,6 +23,8 @@ RULE = ('case = (keystroke stream, its splitting into reads, merge order with th
 ASSUMPTIONS = ['keystrokes and child output are injected into harness-side buffers served to the library\'s os.read (pty delivery is asynchronous); '
                'what the library writes is recorded at its os.write calls and cross-checked once per execution against the real outer pty',
                'schedule deviation bound 1 (quick) / 2 (thorough) over the placement of peer actions']
+EXHAUSTIVE = False      # complete only within the deviation bound, see BOUND_NOTE
+BOUND_NOTE = 'all schedules with at most 1 (quick) / 2 (thorough) non-default placements of peer actions are enumerated completely'
 REQUIRED_FLAGS = {'escape_first': 1, 'escape_middle': 1, 'escape_repeated': 1, 'exit_ending': 1, 'filters': 1, 'pending_flush': 1,
                   'interleaved': 1}
 
